@@ -54,7 +54,8 @@ Definition Qlt_b (a b : Q) : bool := negb (Qle_bool b a).
 
 Definition qnat (k : nat) : Q := inject_Z (Z.of_nat k).
 Definition nregions (n : nat) : nat := Nat.pow 2 n.
-Definition pow2 (n : nat) : Q := qnat (nregions n).
+(* 2^n as a rational (computed in Z: nregions is a unary nat) *)
+Definition pow2 (n : nat) : Q := inject_Z (2 ^ Z.of_nat n).
 
 Definition s_first (s : list Q) : Q := hd 0 s.
 Definition s_last (s : list Q) : Q := last s 0.
